@@ -351,6 +351,11 @@ func judgeSequential(w *proxyWorld, res *Result) {
 			}
 			continue
 		}
+		if p.MaxSize < 1<<30 && !(ex.Method == "GET" && ex.Req.Range != "") {
+			// a cache too small for the representation (plans made for the 416-retry rules): the
+			// reference for stored responses does not apply, everything is relayed
+			continue
+		}
 		if ex.Status == 304 && !clientSentConditional(ex) {
 			res.violate("C06.e", "unsolicited-304", "%s sent no conditional header but received 304 (without a body); origin requests for it: %s [%s]", desc, originSummary(cons), pd)
 		}
